@@ -445,7 +445,7 @@ func (m *Model) RunTextFlow(s *Sink, rule string) {
 		ok := false
 		for _, b := range ph.Blocks {
 			for _, in := range b.Instrs {
-				if st, isSt := in.(*ssa.Store); isSt && tokenSource(st.Val, 0) {
+				if st, isSt := in.(*ssa.Store); isSt && tokenSource(m, st.Val, 0) {
 					ok = true
 				}
 			}
